@@ -42,8 +42,9 @@ class World:
 def cprog(p):
     k = p[0]
     if k == "leaf":
-        _, n, eng, cols, rows = p
-        return f"(PLeaf {n} {cengine(eng)} {cset(cols)} {len(rows)} (Some {len(rows)}))"
+        n, eng, cols, rows = p[1:5]
+        mn, mx = leaf_bounds(p)
+        return f"(PLeaf {n} {cengine(eng)} {cset(cols)} {cz(mn)} {coptz(mx)})"
     if k == "un":
         return f"(PUn {cop(p[1])} {cprog(p[2])})"
     if k == "item":
@@ -55,6 +56,14 @@ def cprog(p):
     if k == "xfer":
         return f"(PXfer {cengine(p[1])} {cprog(p[2])})"
     raise ValueError(p)
+
+
+def leaf_bounds(p):
+    """(min_rows, max_rows) declared for a leaf term: exact unless given."""
+    rows = p[4]
+    if len(p) > 5 and p[5] is not None:
+        return p[5]
+    return len(rows), len(rows)
 
 
 def leaves(p):
@@ -94,10 +103,18 @@ def apply_un(rel, o):
 def build_impl(p, w: World):
     k = p[0]
     if k == "leaf":
-        _, n, eng, cols, rows = p
+        n, eng, cols, rows = p[1:5]
         name = f"L{n}"
         w.reg.names[name] = n
-        return w.engine(eng).make_leaf(set(cols), payload=iteration.RowSequence([dict(r) for r in rows]), name=name)
+        kind = p[6] if len(p) > 6 else None
+        if kind == "doomed":
+            return w.engine(eng).make_doomed_relation(set(cols), ["doomed by the harness"], name=name)
+        if kind == "identity":
+            return w.engine(eng).make_join_identity_relation(name=name)
+        payload = iteration.RowSequence([dict(r) for r in rows])
+        if len(p) > 5 and p[5] is not None:   # declared (loose) bounds: the public LeafRelation constructor
+            return dr.LeafRelation(w.engine(eng), frozenset(cols), payload, name=name, min_rows=p[5][0], max_rows=p[5][1])
+        return w.engine(eng).make_leaf(set(cols), payload=payload, name=name)
     if k == "un":
         return apply_un(build_impl(p[2], w), p[1])
     if k == "item":
@@ -147,25 +164,37 @@ def cspeccase(p, res):
 
 
 # ---- generation --------------------------------------------------------------------------------------
-def gen_leaf(rng, ident, cols=None, eng=("it", 0), maxrows=6):
+def gen_leaf(rng, ident, cols=None, eng=("it", 0), maxrows=6, loose=0.0, special=0.0):
+    """loose: probability of declaring non-exact (but truthful) bounds; special: probability of a
+    doomed / join-identity leaf."""
     if cols is None:
         cols = gen.gen_schema(rng)
-    return ("leaf", ident, eng, sorted(cols), gen.gen_rows(rng, cols, maxrows))
+    r = rng.random()
+    if r < special / 2:
+        return ("leaf", ident, eng, sorted(cols), [], (0, 0), "doomed")
+    if r < special and not cols:
+        return ("leaf", ident, eng, [], [{}], (1, 1), "identity")
+    rows = gen.gen_rows(rng, cols, maxrows)
+    if rng.random() < loose:
+        n = len(rows)
+        mn = rng.choice([0, n, max(0, n - 1), n // 2])
+        mx = rng.choice([None, n, n + 1, n + 3])
+        return ("leaf", ident, eng, sorted(cols), rows, (mn, mx))
+    return ("leaf", ident, eng, sorted(cols), rows)
 
 
-def gen_prog(rng, length, counter=None, cols=None, eng=("it", 0), allow_chain=True, allow_markers=True, weights=None):
+def gen_prog(rng, length, counter=None, cols=None, eng=("it", 0), allow_chain=True, allow_markers=True, weights=None,
+             loose=0.0, special=0.0):
     """A random well-typed program; returns (prog, columns)."""
     counter = counter if counter is not None else [0]
     counter[0] += 1
-    p = gen_leaf(rng, counter[0], cols, eng)
+    p = gen_leaf(rng, counter[0], cols, eng, loose=loose, special=special)
     cur = set(p[3])
     for _ in range(length):
         r = rng.random()
         if allow_chain and r < 0.08:
-            q, _ = gen_prog(rng, rng.randint(0, 2), counter, cols=None, eng=eng, allow_chain=False, allow_markers=False)
-            # make the other operand's columns match via a projection/leaf with the same schema
             counter[0] += 1
-            other = gen_leaf(rng, counter[0], cur, eng)
+            other = gen_leaf(rng, counter[0], cur, eng, loose=loose, special=special)
             if rng.random() < 0.5:
                 o, c2 = gen.gen_op(rng, cur, weights=[0, 2, 0, 3, 3, 3])
                 other = ("un", o, other)
